@@ -15,7 +15,8 @@ const (
 func init() {
 	register(&Property{
 		ID: "C04",
-		Explain: "Static structural necessary conditions of 'every backup copy mirrors the primary' (asynchronous mode, equality of last-access stamps and behaviour after membership changes are NOT decided): " +
+		Explain: "(entry-size-formula) the admission size of the primary path is len(key)+len(value)+table.MetadataLength, the quantity the tables and the backup path work with; (check-then-act) shared with C01; " +
+			"Static structural necessary conditions of 'every backup copy mirrors the primary' (asynchronous mode, equality of last-access stamps and behaviour after membership changes are NOT decided): " +
 			"(shipped-is-stored) in the synchronous and asynchronous write paths the entry whose Encode() is shipped to the backups is the very entry handed to putEntryOnFragment; " +
 			"(partial-update-shipping) when the primary applies a partial mutator (UpdateTTL, the Expire path) the entry shipped to the backups is rebuilt from the stored value: on the OnlyUpdateTTL edge every path to prepareEntry stores storage.Get(hkey).Value() into the request; " +
 			"(lookup-visits-every-table, shared with C09/C11/C12) the engine's in-place mutators (UpdateTTL, the Expire path of the primary) ask every table, so a partial update reaches the primary copy wherever it lives; " +
@@ -42,6 +43,8 @@ func init() {
 			kvPutGrowsStore(r)
 			tableUpdateWritesVersion(r, "update-writes-version")
 			c02ReplicateBeforeAck(r)
+			singleLockRegion(r)
+			kvEntrySizeFormula(r)
 		},
 	})
 }
